@@ -12,7 +12,8 @@ OTHER = {"utf-8": "koi8-r"}
 
 def ans(t):
     enc, explicit = t
-    return {"enc": "none" if enc is None else enc, "explicit": bool(explicit)}
+    # encoding names are case-insensitive: compared in lower case
+    return {"enc": "none" if enc is None else enc.lower(), "explicit": bool(explicit)}
 
 
 def run_row(item):
@@ -25,14 +26,14 @@ def run_row(item):
         o = ans(cc.detectencoding_str(data, r["final"]))
         r["bytes"] = list(data)
     elif k == "charset":
-        text = '@charset "%s";\na { left: 0 }' % r["name"]
+        text = '@charset "%s";\na { left: 0 }' % (r["name"].upper() if rid % 2 else r["name"])      # the name in either letter case
         cut = text[:r["cut"]]
         if r["unicode"]:
             o = ans(cc.detectencoding_unicode(cut, r["final"]))
         else:
             o = ans(cc.detectencoding_str(cut.encode("ascii"), r["final"]))
     elif k == "roundtrip":
-        o = roundtrip(r)
+        o = roundtrip(r, rid)
         if o is None:
             return {"id": rid, "skip": True}
     elif k == "chunk":
@@ -55,8 +56,9 @@ def split_text(t):
     return cs, "unknown:" + body[:20]
 
 
-def roundtrip(r):
+def roundtrip(r, rid=0):
     e, body = r["enc"], BODY[r["body"]]
+    E = e.upper() if rid % 2 else e          # the encoding named in either letter case
     name = {"none": None, "same": e, "other": OTHER.get(e, "utf-8")}[r["cs"]]
     text = ('@charset "%s";\n' % name if name else "") + body
     try:
@@ -69,14 +71,15 @@ def roundtrip(r):
     if r["mode"] == "auto" and not bomfamily and e in ("utf-16-le", "utf-16-be", "utf-32-le", "utf-32-be") and not name:
         return None
     try:
-        data = codecs.encode(text, "css", encoding=e) if hasattr(codecs, "_x") else cc.encode(text, encoding=e)[0]
+        data = cc.encode(text, encoding=E)[0]
         if r["mode"] == "given":
-            back = cc.decode(data, encoding=e)[0]
+            back = cc.decode(data, encoding=E)[0]
         elif r["mode"] == "given-noforce":
-            back = cc.decode(data, encoding=e, force=False)[0]
+            back = cc.decode(data, encoding=E, force=False)[0]
         else:
             back = cc.decode(data)[0]
         cs, b = split_text(back)
+        cs = cs.lower()
         if r["mode"] == "auto" and not bomfamily and e not in ("utf-16-le", "utf-16-be", "utf-32-le", "utf-32-be"):
             pass
         return {"out": "ok", "cs": cs, "body": b}
